@@ -5,9 +5,12 @@
    the item; at the end the heights the DA double accepted, in order, and the chain height.
    A stretch of n blocks of one kind committed in a row is one run-length item (Model.Submitter.HPublishN),
    expanded here into n IPublish items; long height lists are written as runs ([runs]).
+   An iteration during which blocks were committed (inside its DA calls) is one item CTickP of
+   Model.SubmitterConc: every DA answer with the blocks committed while that call was in flight; for a loop item the
+   number of DA answers the loop left unasked is compared too.
    [mismatches] lists the cases on which the model disagrees. *)
 From Coq Require Import NArith List Bool.
-From Verif Require Import Model.Submitter.
+From Verif Require Import Model.Submitter Model.SubmitterConc.
 Import ListNotations.
 Open Scope N_scope.
 
@@ -33,13 +36,14 @@ Record iout := { io_res : option N;      (* 0 idle 1 nothing-to-submit 2 getPend
                  io_el : option N;       (* ms of virtual time inside submitToDA *)
                  io_calls : list ocall;  (* DA calls of the item's kind made during the item, oldest first *)
                  io_h : option mark;     (* header watermark (in memory, persisted) after the item *)
-                 io_d : option mark }.
+                 io_d : option mark;
+                 io_left : option N }.   (* loop items: DA answers of the script the loop did not ask for *)
 
 (* heights in run-length form: [(a, n); ...] = a, a+1, .., a+n-1, ...  (a call after a long DA outage or an idle
    stretch carries hundreds of consecutive heights; the case files write them as runs) *)
 Definition runs (l : list (N * N)) : list N := flat_map (fun p => seqN (fst p) (N.to_nat (snd p))) l.
 
-Record ocase := { oc_cfg : cfg; oc_init : N; oc_hist : list hitem; oc_outs : list iout;
+Record ocase := { oc_cfg : cfg; oc_init : N; oc_hist : list citem; oc_outs : list iout;
                   oc_hacc : list N; oc_dacc : list N;     (* accepted heights, oldest first *)
                   oc_height : N }.
 
@@ -60,7 +64,7 @@ Definition new_calls (k : kind) (s s' : state) : list ocall :=
 Definition opt_ok {A} (e : A -> A -> bool) (obs : option A) (m : A) : bool :=
   match obs with None => true | Some x => e x m end.
 
-(* codes: 1 result, 2 elapsed time, 3 DA calls, 4 watermarks *)
+(* codes: 1 result, 2 elapsed time, 3 DA calls, 4 watermarks, 8 answers left by the loop *)
 Definition check_single (c : cfg) (s : state) (i : item) (o : iout) : state * list N :=
   let '(s', (r, el)) := step c s i in
   let is_tick := match i with ITick _ _ => true | _ => false end in
@@ -68,7 +72,11 @@ Definition check_single (c : cfg) (s : state) (i : item) (o : iout) : state * li
   (s', (if negb is_tick || opt_ok N.eqb (io_res o) (res_class r) then [] else [1]) ++
        (if negb is_tick || opt_ok N.eqb (io_el o) el then [] else [2]) ++
        (if list_eqb ocall_eqb cs (io_calls o) then [] else [3]) ++
-       (if opt_ok mark_eqb (io_h o) (side_mark (s_h s')) && opt_ok mark_eqb (io_d o) (side_mark (s_d s')) then [] else [4])).
+       (if opt_ok mark_eqb (io_h o) (side_mark (s_h s')) && opt_ok mark_eqb (io_d o) (side_mark (s_d s')) then [] else [4]) ++
+       (match i with
+        | ILoop k sc => if opt_ok N.eqb (io_left o) (N.of_nat (length (loop_left c s k sc))) then [] else [8]
+        | _ => []
+        end)).
 
 (* a run-length item is expanded here (Model.Submitter.expand) and the model runs the n single items; the
    observation is taken after the last of them: no DA call, both watermarks *)
@@ -92,9 +100,30 @@ Fixpoint check_items (c : cfg) (s : state) (h : list hitem) (os : list iout) : s
 Definition dedup (l : list N) : list N :=
   fold_right (fun x acc => if existsb (N.eqb x) acc then acc else x :: acc) [] l.
 
+(* an iteration with in-flight commits: result, elapsed time, the DA calls, both watermarks after it (the chain it
+   leaves is compared at the end of the case: accepted heights, chain height) *)
+Definition check_citem (c : cfg) (s : state) (ci : citem) (o : iout) : state * list N :=
+  match ci with
+  | CH hi => check_item c s hi o
+  | CTickP k scp =>
+      let '(s', _, r, el) := tick_p c k scp s in
+      (s', (if opt_ok N.eqb (io_res o) (res_class r) then [] else [1]) ++
+           (if opt_ok N.eqb (io_el o) el then [] else [2]) ++
+           (if list_eqb ocall_eqb (new_calls k s s') (io_calls o) then [] else [3]) ++
+           (if opt_ok mark_eqb (io_h o) (side_mark (s_h s')) && opt_ok mark_eqb (io_d o) (side_mark (s_d s')) then [] else [4]))
+  end.
+
+Fixpoint check_citems (c : cfg) (s : state) (h : list citem) (os : list iout) : state * list N :=
+  match h, os with
+  | i :: h', o :: os' => let '(s', e) := check_citem c s i o in
+                         let '(s'', e') := check_citems c s' h' os' in (s'', e ++ e')
+  | [], [] => (s, [])
+  | _, _ => (s, [9])
+  end.
+
 (* 5 accepted header heights, 6 accepted data heights, 7 chain height *)
 Definition check_case (c : ocase) : list N :=
-  let '(s, e) := check_items (oc_cfg c) (boot (oc_init c)) (oc_hist c) (oc_outs c) in
+  let '(s, e) := check_citems (oc_cfg c) (boot (oc_init c)) (oc_hist c) (oc_outs c) in
   dedup e ++
   (if list_eqb N.eqb (rev (acc (s_h s))) (oc_hacc c) then [] else [5]) ++
   (if list_eqb N.eqb (rev (acc (s_d s))) (oc_dacc c) then [] else [6]) ++
